@@ -117,3 +117,22 @@ def adapters_c09(pid, tier, seed, log):
         "wall_by_adapter_s": r["wall_by_adapter_s"], "wall_s": r["wall_s"],
     }
     return res
+
+
+# ------------------------------------------------------------------------------------------------
+# C07 at the socket level: a poll that is silently sent twice by an HTTP adapter (a retry behind the caller's back) reaches
+# the token endpoint without the wait between polls. Same loopback runs as C09; only the request-count clauses belong to
+# C07 (everything else is C09's business and its known findings are not repeated here).
+
+def adapters_c07(pid, tier, seed, log):
+    r = adapters_c09("C09", tier, seed, log)
+    keep = []
+    for name, payload, found in r.get("violations", []):
+        sig = payload.get("signature", name)
+        if "request-repeated" in sig or sig.endswith(":request-count"):
+            payload = dict(payload, note="reported under C07: one call of the HTTP client must put ONE poll on the wire")
+            keep.append((sig.replace("C09:", "C07:adapter:"), payload, found))
+    cov = r.get("coverage", {})
+    return {"coverage": {"loopback_cases": cov.get("evaluations"), "fault_outcomes": cov.get("fault_outcomes"),
+                         "rule": "the C09 loopback matrix; only the clauses `request-repeated-after-fault` and `request-count` are judged here"},
+            "violations": keep, "tooling": r.get("tooling", []), "known_lines": []}
